@@ -10,7 +10,7 @@ from .models import SIZES, WINDOWS
 MUTED = set()
 MUTABLE = ["get_sizes", "get_orders", "distribution_sizes", "max_size", "max_order", "is_uniform", "degree_distribution",
            "degree_distribution*", "degree_sequence", "num_edges", "num_edges*", "num_nodes", "len", "get_weights", "get_weights*",
-           "get_edges*", "get_nodes*", "get_all_nodes_metadata", "get_all_edges_metadata", "get_neighbors", "get_neighbors*",
+           "get_edges*", "get_nodes*", "get_all_nodes_metadata", "get_all_edges_metadata", "get_neighbors", "get_neighbors*", "isolated_nodes", "isolated_nodes*", "is_isolated", "is_isolated*",
            "degree", "degree*", "get_incident_edges", "get_incident_edges*", "check_edge", "check_node", "get_sources",
            "get_targets", "get_source_edges", "get_source_edges*", "get_target_edges", "get_target_edges*", "in_degree",
            "in_degree*", "out_degree", "out_degree*", "min_time", "max_time", "get_times_for_edge", "get_weight",
@@ -194,6 +194,8 @@ def observe(kind, h, universe, probe_keys, flip=0, sizes=None):
         o["max_size"] = val(q(h.max_size))
         o["max_order"] = val(q(h.max_order))
     o["nbr"] = {tag(n): tags(q(h.get_neighbors, n)) for n in present}
+    o["isolated"] = tags(q(h.isolated_nodes))
+    o["is_isolated"] = {tag(n): boolval(q(h.is_isolated, n)) for n in present}
     r = q(h.degree_distribution)
     o["degdist"] = repr(r) if _e(r) else {str(d): c for d, c in r.items()}
     for s in SZ:
@@ -218,6 +220,8 @@ def observe(kind, h, universe, probe_keys, flip=0, sizes=None):
         kw2 = {"order": s - 1} if (s + flip) % 2 else {"size": s}
         o[f"inc/size={s}"] = {tag(n): lst(kind, q(h.get_incident_edges, n, **kw)) for n in present}
         o[f"nbr/size={s}"] = {tag(n): tags(q(h.get_neighbors, n, **kw2)) for n in present}
+        o[f"isolated/size={s}"] = tags(q(h.isolated_nodes, **kw))
+        o[f"is_isolated/size={s}"] = {tag(n): boolval(q(h.is_isolated, n, **kw2)) for n in present}
         o[f"deg/size={s}"] = {tag(n): val(q(h.degree, n, **kw2)) for n in present}
         r = q(h.degree_distribution, **kw)
         o[f"degdist/size={s}"] = repr(r) if _e(r) else {str(d): c for d, c in r.items()}
@@ -427,6 +431,11 @@ def apply_op(kind, h, op):
                 h.set_edge_metadata(e, cp(op["md"]))
         elif name == "set_hg_md":
             h.set_hypergraph_metadata(cp(op["md"]))
+        elif name == "set_layer_md":
+            if op.get("dataset"):
+                h.set_dataset_metadata(cp(op["md"]))
+            else:
+                h.set_layer_metadata(op["layer"], cp(op["md"]))
         elif name == "set_attr_hg":
             h.set_attr_to_hypergraph_metadata(op["f"], cp(op["v"]))
         elif name == "set_attr_node":
